@@ -8,7 +8,7 @@ levels = json.load(open(os.path.join(root, 'tools', 'levels.json')))
 na = json.load(open(os.path.join(root, 'tools', 'not_applicable.json')))
 checks = []
 claimed = set()
-for d in sorted(glob.glob(os.path.join(root, 'checks', 'C*'))):
+for d in sorted(glob.glob(os.path.join(root, 'checks', 'C[0-9][0-9]'))):
     cid = os.path.basename(d)
     cj = os.path.join(d, 'check.json')
     if not os.path.exists(cj) or cid in na:
